@@ -224,7 +224,10 @@ pub fn render_field(l: &Layout, f: &Field, o: &RenderOpts) -> String {
         }
     }
     let t = match &f.array {
-        Some(a) => format!("[{}; {}]", t, num(a.count as u64, f.zero_pad)),
+        Some(a) => match f.huge.as_ref().filter(|h| h.part == "count") {
+            Some(h) => format!("[{}; {}]", t, h.value),
+            None => format!("[{}; {}]", t, num(a.count as u64, f.zero_pad)),
+        },
         None => t,
     };
     s.push_str(&format!("    {}: {},\n", f.name, t));
@@ -311,6 +314,28 @@ pub fn render_struct(l: &Layout, o: &RenderOpts) -> String {
     s
 }
 
+/// A custom field type written by hand: a newtype around the base integer with const `new_with_raw_value` and
+/// `raw_value` — all the macro may rely on for a field of a type it does not know.
+pub fn render_handwritten(i: &Layout, o: &RenderOpts) -> String {
+    let base = base_ty_name(i.base_bits);
+    let recv = if i.handwritten == 2 { "&self" } else { "self" };
+    let doc = |what: &str, name: &str| if o.docs { doc_text("", what, name) } else { String::new() };
+    let doc4 = |what: &str, name: &str| if o.docs { doc_text("    ", what, name) } else { String::new() };
+    format!(
+        "{}#[derive(Copy, Clone, Debug, PartialEq, Eq)]\npub struct {}({});\nimpl {} {{\n{}    pub const fn new_with_raw_value(value: {}) -> Self {{\n        {}(value)\n    }}\n{}    pub const fn raw_value({}) -> {} {{\n        self.0\n    }}\n}}\n",
+        doc("hand-written field type", &i.name),
+        i.name,
+        base,
+        i.name,
+        doc4("constructor", "new_with_raw_value"),
+        base,
+        i.name,
+        doc4("accessor", "raw_value"),
+        recv,
+        base
+    )
+}
+
 /// Aux types (enums, inner bitfields) followed by the struct.
 pub fn render_layout(l: &Layout, o: &RenderOpts) -> String {
     let mut s = String::new();
@@ -318,7 +343,11 @@ pub fn render_layout(l: &Layout, o: &RenderOpts) -> String {
         s.push_str(&render_enum(e, o));
     }
     for i in &l.inners {
-        s.push_str(&render_layout(i, o));
+        if i.handwritten != 0 {
+            s.push_str(&render_handwritten(i, o));
+        } else {
+            s.push_str(&render_layout(i, o));
+        }
     }
     if l.decoys != 0 && (!l.enums.is_empty() || !l.inners.is_empty()) {
         s.push_str("/// same-named types of other widths; never used\npub mod decoy {\n    #![allow(dead_code, unused_imports)]\n    use arbitrary_int::*;\n");
@@ -354,6 +383,7 @@ pub fn render_layout(l: &Layout, o: &RenderOpts) -> String {
                 vis: 0,
                 decoys: 0,
                 derives: 0,
+                handwritten: 0,
             };
             for line in render_struct(&d, o).lines() {
                 s.push_str("    ");
